@@ -246,8 +246,28 @@ impl CommandAnalyzer {
 
     /// Build an index of type definitions from an AST
     fn index_type_definitions(&mut self, ast: &syn::File, file_path: &Path) {
-        for item in &ast.items {
+        self.index_type_definitions_in(&ast.items, file_path);
+    }
+
+    /// `#[cfg(test)] mod tests { .. }`: its helper types are not part of the project's surface
+    fn is_test_module(item_mod: &syn::ItemMod) -> bool {
+        item_mod.attrs.iter().any(|attr| {
+            attr.path().is_ident("cfg")
+                && attr
+                    .parse_args::<syn::Ident>()
+                    .is_ok_and(|ident| ident == "test")
+        })
+    }
+
+    /// Index the items of a file or of an inline module (`mod models { .. }`) of that file
+    fn index_type_definitions_in(&mut self, items: &[syn::Item], file_path: &Path) {
+        for item in items {
             match item {
+                syn::Item::Mod(item_mod) if !Self::is_test_module(item_mod) => {
+                    if let Some((_, nested_items)) = &item_mod.content {
+                        self.index_type_definitions_in(nested_items, file_path);
+                    }
+                }
                 syn::Item::Struct(item_struct) => {
                     if self.struct_parser.should_include_struct(item_struct) {
                         let struct_name = item_struct.ident.to_string();
@@ -335,8 +355,27 @@ impl CommandAnalyzer {
         type_name: &str,
         file_path: &Path,
     ) -> Option<StructInfo> {
-        for item in &ast.items {
+        self.extract_type_from_items(&ast.items, type_name, file_path)
+    }
+
+    /// Look for a type among the items of a file or of an inline module of that file
+    fn extract_type_from_items(
+        &mut self,
+        items: &[syn::Item],
+        type_name: &str,
+        file_path: &Path,
+    ) -> Option<StructInfo> {
+        for item in items {
             match item {
+                syn::Item::Mod(item_mod) if !Self::is_test_module(item_mod) => {
+                    if let Some((_, nested_items)) = &item_mod.content {
+                        if let Some(found) =
+                            self.extract_type_from_items(nested_items, type_name, file_path)
+                        {
+                            return Some(found);
+                        }
+                    }
+                }
                 syn::Item::Struct(item_struct) => {
                     if item_struct.ident == type_name
                         && self.struct_parser.should_include_struct(item_struct)
